@@ -64,6 +64,12 @@ type IndexedState struct {
 	// state's read lock) fill.
 	cacheMu sync.Mutex
 
+	// expiredIds holds the ids of facts that a reader found expired.
+	// A reader holds the read lock only, so it can't remove them;
+	// purgeExpired does that under the write lock.
+	expiredIds []string
+	expiredMu  sync.Mutex
+
 	addHook AddHookFn
 
 	remHook RemHookFn
@@ -301,6 +307,7 @@ func (s *IndexedState) Add(ctx *Context, id string, x Map) (string, error) {
 		}
 	}
 	s.sunlock(ctx, false)
+	s.purgeExpired(ctx)
 
 	if nil != err {
 		return "", err
@@ -447,6 +454,7 @@ func (s *IndexedState) Rem(ctx *Context, id string) (bool, error) {
 	Log(DEBUG, ctx, "IndexedState.Rem", "id", id)
 	timer := NewTimer(ctx, "IndexedState.Rem")
 	defer timer.Stop()
+	defer s.purgeExpired(ctx)
 	s.slock(ctx, false)
 	defer s.sunlock(ctx, false)
 	if s.remHook != nil {
@@ -610,6 +618,11 @@ func (s *IndexedState) get(ctx *Context, id string, getLock bool) (Map, error) {
 		s.slock(ctx, true)
 	}
 	fact, found := s.IdToFact[id]
+	var expired bool
+	var err error
+	if found {
+		expired, err = s.noteExpired(ctx, id, fact, 0)
+	}
 	if getLock {
 		s.sunlock(ctx, true)
 	}
@@ -617,14 +630,15 @@ func (s *IndexedState) get(ctx *Context, id string, getLock bool) (Map, error) {
 	if !found {
 		return nil, NewNotFoundError("%s", id)
 	}
-
-	expired, err := s.expire(ctx, id, fact, 0)
 	if err != nil {
 		Log(ERROR, ctx, "IndexedState.Get", "error", err, "when", "expiring")
 		return nil, err
 	}
 	if expired {
 		Log(ERROR, ctx, "IndexedState.Get", "expired", expired, "id", id)
+		if getLock {
+			s.purgeExpired(ctx)
+		}
 		return nil, NewNotFoundError("%s", id)
 	}
 
@@ -645,6 +659,44 @@ func (s *IndexedState) SearchForIDs(ctx *Context, pattern Map) ([]string, error)
 //
 // This method is mostly generic and could be dissociated from
 // IndexedState.
+// noteExpired reports whether the fact has expired.  If so, the id is
+// remembered for purgeExpired.  Touches nothing else, so this is what
+// readers (who only hold the read lock) use.
+func (s *IndexedState) noteExpired(ctx *Context, id string, fact map[string]interface{}, unixNow int64) (bool, error) {
+	expired, err := checkExpiration(ctx, fact, unixNow)
+	if err != nil {
+		return false, err
+	}
+	if expired {
+		s.expiredMu.Lock()
+		s.expiredIds = append(s.expiredIds, id)
+		s.expiredMu.Unlock()
+	}
+	return expired, nil
+}
+
+// purgeExpired removes the facts that readers found expired.  Gets
+// the write lock, so the caller must not hold a lock.
+func (s *IndexedState) purgeExpired(ctx *Context) {
+	s.expiredMu.Lock()
+	ids := s.expiredIds
+	s.expiredIds = nil
+	s.expiredMu.Unlock()
+	if len(ids) == 0 {
+		return
+	}
+	s.slock(ctx, false)
+	defer s.sunlock(ctx, false)
+	for _, id := range ids {
+		if fact, have := s.IdToFact[id]; have {
+			if _, err := s.expire(ctx, id, fact, 0); err != nil {
+				Log(ERROR, ctx, "IndexedState.purgeExpired", "name", s.Name, "id", id, "error", err)
+			}
+		}
+	}
+}
+
+// expire removes the fact if it has expired.  Assumes the write lock.
 func (s *IndexedState) expire(ctx *Context, id string, fact map[string]interface{}, unixNow int64) (bool, error) {
 	Log(DEBUG, ctx, "IndexedState.expire", "id", id, "fact", fact)
 
@@ -699,6 +751,7 @@ func (s *IndexedState) Search(ctx *Context, pattern Map) (*SearchResults, error)
 	s.slock(ctx, true)
 	srs, err := s.search(ctx, pattern)
 	s.sunlock(ctx, true)
+	s.purgeExpired(ctx)
 
 	return srs, err
 }
@@ -723,7 +776,7 @@ func (s *IndexedState) search(ctx *Context, pattern Map) (*SearchResults, error)
 			continue
 		}
 
-		done, err := s.expire(ctx, id, fact, now)
+		done, err := s.noteExpired(ctx, id, fact, now)
 		if err != nil {
 			Log(ERROR, ctx, "IndexedState.search", "error", err, "when", "expiring")
 		}
@@ -778,6 +831,7 @@ func (s *IndexedState) FindRules(ctx *Context, event Map) (map[string]Map, error
 }
 
 func (s *IndexedState) doFindRules(ctx *Context, event Map) (map[string]Map, error) {
+	defer s.purgeExpired(ctx)
 	s.slock(ctx, true)
 	defer s.sunlock(ctx, true)
 	return s.findRules(ctx, event)
@@ -812,7 +866,7 @@ func (s *IndexedState) findRules(ctx *Context, event Map) (map[string]Map, error
 		rule, ok := s.IdToFact[id]
 		Log(DEBUG, ctx, "IndexedState.FindRules", "rule", rule, "ruleId", id)
 
-		expired, err := s.expire(ctx, id, rule, now)
+		expired, err := s.noteExpired(ctx, id, rule, now)
 		if err != nil {
 			Log(ERROR, ctx, "IndexedState.FindRules", "error", err, "when", "expiring")
 		}
@@ -856,6 +910,7 @@ func (s *IndexedState) FindCachedRules(ctx *Context, event Map) (map[string]*Rul
 	// writer, which needs the write lock to change a rule and to
 	// drop its cache entry, therefore can't slip in between our
 	// reading a rule and our caching it.
+	defer s.purgeExpired(ctx)
 	s.slock(ctx, true)
 	defer s.sunlock(ctx, true)
 
